@@ -121,12 +121,16 @@ def parse_template(text):
 
 
 def find_unique(src, anchor, what):
-    n = src.count(anchor)
+    n = src.count(anchor) if "@@" not in anchor else 0
     if n == 0:
         # rustc's pretty printer breaks long item heads over several lines:
-        # retry with any run of white space matching any other
+        # retry with any run of white space matching any other. `@@` in an
+        # anchor stands for "any bounds" (text without braces or semicolons),
+        # so that an item is still found when only its trait bounds change.
         import re as _re
-        pat = r"\s+".join(_re.escape(w) for w in anchor.split())
+        def piece(w):
+            return r"[^{};]*?".join(_re.escape(x) for x in w.split("@@"))
+        pat = r"\s+".join(piece(w) for w in anchor.split())
         ms = list(_re.finditer(pat, src))
         if len(ms) == 1:
             return ms[0].start()
@@ -554,7 +558,7 @@ def build_unit(template_path, repo, out_path, extra_sources=None, exclude=()):
             continue
         it = seg
         if (it["name"] or it["anchor"]) in exclude:
-            skipped.append(f'{it["name"] or it["anchor"]}: left out after Verus rejected a construct in it')
+            skipped.append(f'{it["name"] or it["anchor"]}: left out (Verus rejected a construct in it, or its anchor was lost / its shape changed)')
             continue
         try:
             text, regs, item, src, start = _extract_item(it, repo, extra_sources, len(regions), dropped, externals)
@@ -562,7 +566,9 @@ def build_unit(template_path, repo, out_path, extra_sources=None, exclude=()):
             if it.get("optional"):
                 skipped.append(f'{it["name"] or it["anchor"]}: {ex}')
                 continue
-            raise ExtractError(str(ex))
+            err = ExtractError(str(ex))
+            err.item = it["name"] or it["anchor"]
+            raise err
         regions.update(regs)
         nlines = text.count("\n") + 1
         items.append({"file": it["file"], "anchor": it["anchor"], "props": it["props"],
